@@ -283,7 +283,7 @@ func (c17) Run(c *Ctx, raw json.RawMessage) Case {
 		srcDir = "grp/foo"
 	}
 	files := map[string]string{
-		"go.mod":             goModText + "\nrequire github.com/stretchr/testify v1.10.0\n",
+		"go.mod":             goModText + "\nrequire github.com/stretchr/testify v1.10.0\n\nrequire (\n\tgithub.com/davecgh/go-spew v1.1.1 // indirect\n\tgithub.com/pmezard/go-difflib v1.0.0 // indirect\n\tgithub.com/stretchr/objx v0.5.2 // indirect\n\tgopkg.in/yaml.v3 v3.0.1 // indirect\n)\n",
 		srcDir + "/foo.go": "package foo\n\ntype Doer interface {\n\tDo(x int, ys ...string) (string, error)\n}\n",
 	}
 	if nested {
